@@ -111,7 +111,7 @@ def cases(tier, seed):
     for ci, cell in enumerate(zoo.matrix()):
         out.append({"key": f"iface-{zoo.cell_name(cell)}", "kind": "iface", "cell": cell,
                     "rseed": hash((seed, ci)) % (2 ** 31), "cost": 2})
-    nop = 60 if tier == "quick" else 4000
+    nop = 60 if tier == "quick" else 12000
     for i in range(nop):
         out.append({"key": f"op{i}", "kind": "op", "rseed": hash((seed, 7, i)) % (2 ** 31),
                     "noise_type": zoo.NOISE_TYPES[i % 4]})
